@@ -126,6 +126,7 @@ type c10 struct {
 	checks   uint64
 	step     int
 	sigParts []string
+	results  []string
 	t0       time.Time
 	firstNow time.Time
 	lastNow  time.Time
@@ -144,6 +145,7 @@ func (c *c10) finish() {
 	c.out.Resolved = c.resolved
 	c.out.OpsDone = c.step
 	c.out.Sig = fmt.Sprintf("%x", fnv(strings.Join(c.sigParts, ";")))
+	c.out.LogHash = fmt.Sprintf("%016x", fnv(strings.Join(c.resolved, "\n")+"|"+strings.Join(c.results, "\n")))
 	c.out.NonTrivial = probesC["complete_checked"] > 0
 	if c.out.Status == "" {
 		c.out.Status = "ok"
@@ -310,6 +312,7 @@ func runC10(s *spec.Spec, logPath string) {
 			rs = append(rs, r.String())
 		}
 		got := strings.Join(rs, ", ")
+		c.results = append(c.results, got)
 		// (c) strictly increasing
 		c.checks++
 		for k := 1; k < len(res); k++ {
